@@ -20,7 +20,9 @@ import (
 	"path/filepath"
 	"regexp"
 	"runtime"
+	"runtime/debug"
 	"sort"
+	"strconv"
 	"strings"
 	"sync"
 	"time"
@@ -57,6 +59,9 @@ func runC02(c *Cfg) {
 	case strings.HasPrefix(c.Replay, "cli:"):
 		// act as the cue command: `<self> C02 -replay cli:<cmd> -out <dir>` runs
 		// `cue <cmd> <args from C02_CLI_ARGS>` in the current directory
+		if n, err := strconv.Atoi(os.Getenv("C02_MAXSTACK")); err == nil && n > 0 {
+			debug.SetMaxStack(n)
+		}
 		args := strings.Split(os.Getenv("C02_CLI_ARGS"), "\x1f")
 		os.Args = append([]string{"cue"}, args...)
 		os.Exit(cmd.Main())
@@ -262,10 +267,38 @@ func c02Trunc(s string, n int) string {
 
 var c02GoTrace = regexp.MustCompile(`(?m)^(panic: |fatal error: |goroutine \d+ \[)`)
 
+// c02CLIStack is the stack limit of the CLI runs: small, so that a runaway recursion costs two
+// CPU seconds instead of thirty; the first stack overflow of every recursion cycle is
+// confirmed with Go's default limit (c02CLIConfirm).
+const c02CLIStack = 64 << 20
+
+var (
+	c02CLIConfirmedMu sync.Mutex
+	c02CLIConfirmed   = map[string]bool{}
+)
+
+// c02CLIConfirm reports whether a stack overflow seen with the small limit is real: the
+// first one per recursion signature is re-run with the default 1 GB limit.
+func c02CLIConfirm(dir string, args []string, sig string, timeout time.Duration) bool {
+	c02CLIConfirmedMu.Lock()
+	done := c02CLIConfirmed[sig]
+	c02CLIConfirmed[sig] = true
+	c02CLIConfirmedMu.Unlock()
+	if done || sig == "" {
+		return true
+	}
+	code, _, se, to := c02CLIOnceStack(dir, args, 4*timeout, 1000000000)
+	return !to && code == 2 && strings.Contains(se, "stack overflow")
+}
+
 func c02CLIOnce(dir string, args []string, timeout time.Duration) (code int, stdout, stderr string, timedOut bool) {
+	return c02CLIOnceStack(dir, args, timeout, c02CLIStack)
+}
+
+func c02CLIOnceStack(dir string, args []string, timeout time.Duration, stack int) (code int, stdout, stderr string, timedOut bool) {
 	cm := exec.Command(c02Self(), "C02", "-replay", "cli:"+args[0], "-out", dir)
 	cm.Dir = dir
-	cm.Env = append(os.Environ(), "C02_CLI_ARGS="+strings.Join(args, "\x1f"), "GOMEMLIMIT=1GiB", "GOMAXPROCS=2",
+	cm.Env = append(os.Environ(), fmt.Sprintf("C02_MAXSTACK=%d", stack), "C02_CLI_ARGS="+strings.Join(args, "\x1f"), "GOMEMLIMIT=1GiB", "GOMAXPROCS=2",
 		"CUE_CACHE_DIR="+filepath.Join(dir, ".cache"), "HOME="+dir, "GOTRACEBACK=single")
 	var so, se bytes.Buffer
 	cm.Stdout, cm.Stderr = &so, &se
@@ -326,6 +359,9 @@ func c02RunCLI(c *Cfg, sample []*c02Case) []*c02Failure {
 						// reporting (the machine may be loaded); the worker run of the same case
 						// reports a genuine timeout
 						c.Count("cli/wall-timeout")
+					case strings.Contains(se, "stack overflow") && !c02CLIConfirm(dir, args, c02RecursionSig(se), timeout):
+						// deep but finite recursion: fine with the default stack limit
+						c.Count("cli/stack-overflow-only-with-small-stack")
 					case code != 0 && code != 1 || c02GoTrace.MatchString(se):
 						f = &c02Failure{kind: "cli-crash", sig: c02RecursionSig(se), detail: fmt.Sprintf("cue %s: exit %d: %s", strings.Join(args, " "), code, c02FirstLines(se, 10)), src: cs.src, origin: cs.origin + " [" + cs.kind + "]"}
 					default:
@@ -360,8 +396,12 @@ func c02RunCLI(c *Cfg, sample []*c02Case) []*c02Failure {
 func c02Still(c *Cfg, pool *c02Pool, f *c02Failure, src []byte, cpuMs int) bool {
 	switch f.kind {
 	case "cli-crash", "cli-nondeterministic":
-		dir := filepath.Join(c.Out, "cli", "min")
-		os.MkdirAll(dir, 0o777)
+		os.MkdirAll(filepath.Join(c.Out, "cli"), 0o777)
+		dir, err := os.MkdirTemp(filepath.Join(c.Out, "cli"), "min")
+		if err != nil {
+			return false
+		}
+		defer os.RemoveAll(dir)
 		os.WriteFile(filepath.Join(dir, "in.cue"), src, 0o666)
 		args := strings.Fields(strings.SplitN(strings.TrimPrefix(f.detail, "cue "), ":", 2)[0])
 		if f.kind == "cli-crash" {
@@ -480,9 +520,8 @@ func c02Minimise(c *Cfg, pool *c02Pool, f *c02Failure, cpuMs int, budget time.Du
 func c02Classify(f *c02Failure, min []byte) string {
 	switch f.kind {
 	case "nondeterministic", "cli-nondeterministic":
-		if c02HasRawStringTie(min) {
-			return "label-rawstring-tie"
-		}
+		// no nondeterminism is a known finding any more (the "#D" vs #D field order was
+		// repaired by 2c855f1; the inputs stay in the repeated-run stream)
 		return f.kind
 	case "cli-crash":
 		if i := strings.Index(f.detail, "panic: "); i >= 0 && f.sig == "" && !strings.Contains(f.detail, "stack overflow") {
@@ -620,34 +659,6 @@ func c02HasBoundWithRequired(src []byte) bool {
 	return found
 }
 
-// c02HasRawStringTie: the program has, anywhere, a quoted label whose text is the spelling of
-// a definition / hidden label that also occurs (e.g. "#a" and #a).
-func c02HasRawStringTie(src []byte) bool {
-	f, err := parser.ParseFile("in.cue", src)
-	if f == nil || err != nil && f == nil {
-		return false
-	}
-	idents, strs := map[string]bool{}, map[string]bool{}
-	ast.Walk(f, func(n ast.Node) bool {
-		if fd, ok := n.(*ast.Field); ok {
-			switch l := fd.Label.(type) {
-			case *ast.Ident:
-				idents[l.Name] = true
-			case *ast.BasicLit:
-				s := strings.Trim(l.Value, "\"")
-				strs[s] = true
-			}
-		}
-		return true
-	}, nil)
-	for s := range strs {
-		if strings.HasPrefix(s, "#") && idents[s] {
-			return true
-		}
-	}
-	return false
-}
-
 func c02Report(c *Cfg, pool *c02Pool, failures []*c02Failure, cpuMs int) {
 	// group by (kind, site) so that one defect hit 200 times is minimised once or twice
 	groups := map[string][]*c02Failure{}
@@ -665,27 +676,48 @@ func c02Report(c *Cfg, pool *c02Pool, failures []*c02Failure, cpuMs int) {
 	sort.Strings(order)
 	perGroup := c.Pick(2, 6)
 	budget := time.Duration(c.Pick(20, 90)) * time.Second
+	// minimise in parallel (every test is a process of its own), report in a fixed order
+	type item struct {
+		f     *c02Failure
+		min   []byte
+		did   bool
+		class string
+	}
+	var items []*item
+	var wg sync.WaitGroup
+	sem := make(chan struct{}, 8)
 	for _, k := range order {
 		fs := groups[k]
 		sort.Slice(fs, func(i, j int) bool { return len(fs[i].src) < len(fs[j].src) })
 		for i, f := range fs {
-			var minSrc []byte
-			if i < perGroup {
-				minSrc = c02Minimise(c, pool, f, cpuMs, budget)
-			} else {
-				minSrc = f.src
-			}
-			if f.sig == "" && c02Resource[f.kind] && i < perGroup {
-				// is the time/memory overrun a runaway recursion? a small stack tells, and names it
-				o := pool.AskFresh(&c02Req{Src: minSrc, Runs: 1, CPUms: cpuMs}, "C02_MAXSTACK=33554432")
-				if o.Kind == "stack-overflow" {
-					f.sig = o.Sig
+			it := &item{f: f, min: f.src}
+			items = append(items, it)
+			first := i < perGroup
+			wg.Add(1)
+			go func() {
+				defer wg.Done()
+				sem <- struct{}{}
+				defer func() { <-sem }()
+				// inputs of at most 48 bytes (the hand-written idioms) are not worth minimising
+				if first && len(f.src) > 48 {
+					it.min = c02Minimise(c, pool, f, cpuMs, budget)
+					it.did = true
 				}
-			}
-			class := c02Classify(f, minSrc)
-			c.Count("failure/" + class)
-			c.Direct(false, class, fmt.Sprintf("%s: %s", f.kind, c02Trunc(f.detail, 600)),
-				map[string]any{"input": string(minSrc), "input_hex": H(string(minSrc)), "minimised": i < perGroup, "original_bytes": len(f.src), "origin": f.origin})
+				if f.sig == "" && c02Resource[f.kind] && first {
+					// is the time/memory overrun a runaway recursion? a small stack tells, and names it
+					o := pool.AskFresh(&c02Req{Src: it.min, Runs: 1, CPUms: cpuMs}, "C02_MAXSTACK=33554432")
+					if o.Kind == "stack-overflow" {
+						f.sig = o.Sig
+					}
+				}
+				it.class = c02Classify(f, it.min)
+			}()
 		}
+	}
+	wg.Wait()
+	for _, it := range items {
+		c.Count("failure/" + it.class)
+		c.Direct(false, it.class, fmt.Sprintf("%s: %s", it.f.kind, c02Trunc(it.f.detail, 600)),
+			map[string]any{"input": string(it.min), "input_hex": H(string(it.min)), "minimised": it.did || len(it.f.src) <= 48, "original_bytes": len(it.f.src), "origin": it.f.origin})
 	}
 }
